@@ -22,7 +22,7 @@ CHECK = dict(
     technique="runtime monitoring: print -> parse -> print / assemble -> decode round trip on decoded instructions",
 )
 PER_ARCH = {"quick": 100, "thorough": 400}      # seed-dependent candidates per arch/mode
-WALK = {"quick": (1, 8), "thorough": (1, 4)}      # table walk: (rounds, stride)
+WALK = {"quick": (1, 16), "thorough": (1, 6)}      # table walk: (rounds, stride)
 
 
 def shards(tier, seed, scale):
